@@ -507,7 +507,7 @@ func cmdConc(args []string) int {
 func installPerturb(seed int64, level int, impl bool) {
 	var mu sync.Mutex
 	r := rand.New(rand.NewSource(mix(seed, 4242)))
-	points := map[string]bool{"cm.lock.pre": true, "cm.decided": true, "cm.applied": true, "cm.enq.pre": true,
+	points := map[string]bool{"cm.lock.pre": true, "cm.decided": true, "cm.apply.pre": true, "cm.applied": true, "cm.enq.pre": true,
 		"cm.enq": true, "cm.done": true, "fl.take": true, "fl.flushed": true, "fl.compacted": true, "fl.removed": true}
 	verifhook.SetGate(func(point string, args ...any) {
 		if impl {
